@@ -94,7 +94,7 @@ def run_shard(spec, ctx, acc):
         # single-byte sweeps and special tails at each target's natural sizes
         for ti in spec["targets"]:
             for case in edge_cases(targets[ti], tier, ctx["seed"]):
-                o = check(case)
+                o = core.checked(check, case)
                 o.classes = list(o.classes) + [case["edge"]]
                 if core.handle(acc, o, case, known) and len(acc.violations) >= core.MAX_VIOL_PER_SHARD:
                     break
@@ -110,7 +110,7 @@ def run_shard(spec, ctx, acc):
                             continue
                         p = codec.zero_state_payload(b"\x04", b"\x02", n, blk, fill=k)
                         case = _mk(b"\x04\x02", p, 0, 1, "long", "defined")
-                        o = check(case)
+                        o = core.checked(check, case)
                         o.classes = list(o.classes) + ["long-zero-state"]
                         core.handle(acc, o, case, known)
         # payload sizes at and next to every power of two from 2^8 to 2^15
@@ -125,7 +125,7 @@ def run_shard(spec, ctx, acc):
                     for cid in (b"\x04\x02", b"\x77\x01", b"\x0a\x04"):
                         for mode, val in ((0, 1), (0, 0), (3, 1)):
                             case = dict(_mk(cid, p, mode, 1, "long", "defined"), validate=val)
-                            o = check(case)
+                            o = core.checked(check, case)
                             o.classes = list(o.classes) + ["size~2^k"]
                             core.handle(acc, o, case, known)
         # undocumented IDs / unknown classes with arbitrary payloads
@@ -152,7 +152,7 @@ def run_shard(spec, ctx, acc):
             for mode in (0, 1, 2, 3):
                 for bf in (0, 1):
                     case = _mk(clsid, payload, mode, bf, pk, "sweep")
-                    if core.handle(acc, check(case), case, known):
+                    if core.handle(acc, core.checked(check, case), case, known):
                         return
 
 
@@ -280,7 +280,7 @@ def check(case) -> core.Out:
     out = core.Out(classes=classes, dig=core.digest((frame, mode, bf)))
     key = f"{PROP}|{C.MODES[mode]}|{clsid.hex()}|"
     try:
-        m = pyubx2.UBXReader.parse(frame, msgmode=mode, parsebitfield=bf, validate=case.get("validate", 1))
+        m = C.uparse(frame, mode, case.get("validate", 1), bf)
     except C.ubx_errors():
         classes.append("rejected")
         return out
